@@ -215,7 +215,33 @@ pub fn nodes(depth: u32) -> impl Strategy<Value = Vec<Node>> {
                 .prop_map(|(name, levels, inner)| Node::Deep { name: name.to_owned(), levels, inner }),
         ]
     });
-    prop::collection::vec(tree, 0..5)
+    prop::collection::vec(prop_oneof![24 => tree, 1 => near_limit_structure()], 0..5)
+}
+
+/// A small structure whose parse differs from its text (implied `tbody`, foster parenting, list
+/// and paragraph auto-closing) or that contains an element the sanitizer unwraps, placed right at
+/// the depth limit: what the first pass keeps there must survive a second pass too.
+fn near_limit_structure() -> impl Strategy<Value = Node> {
+    let el = |name: &str, children: Vec<Node>| Node::Elem { name: name.to_owned(), attrs: vec![], children, close: 0 };
+    let cell = (prop_oneof![Just("td"), Just("th")], "[a-z]{1,4}").prop_map(move |(n, t)| Node::Elem { name: n.to_owned(), attrs: vec![], children: vec![Node::Text(t)], close: 0 });
+    let table = (cell, prop_oneof![Just(""), Just("tbody"), Just("thead"), Just("tfoot"), Just("center"), Just("section")], any::<bool>(), any::<bool>()).prop_map(move |(cell, group, with_tr, caption)| {
+        let mut row = if with_tr { el("tr", vec![cell]) } else { cell };
+        if !group.is_empty() {
+            row = el(group, vec![row]);
+        }
+        let mut kids = vec![];
+        if caption {
+            kids.push(el("caption", vec![Node::Text("c".into())]));
+        }
+        kids.push(row);
+        el("table", kids)
+    });
+    let list = (prop_oneof![Just("ul"), Just("ol"), Just("menu"), Just("dir")], "[a-z]{1,4}", any::<bool>()).prop_map(move |(l, t, nested)| {
+        let li = el("li", vec![Node::Text(t)]);
+        el(l, if nested { vec![el("center", vec![li])] } else { vec![li] })
+    });
+    let para = ("[a-z]{1,4}", prop_oneof![Just("div"), Just("p"), Just("h1"), Just("x-unknown"), Just("font")]).prop_map(move |(t, inner)| el("p", vec![Node::Text(t.clone()), el(inner, vec![Node::Text(t)])]));
+    (prop_oneof![Just("div"), Just("blockquote"), Just("span")], 90u16..=102, prop_oneof![3 => table.boxed(), 1 => list.boxed(), 1 => para.boxed()]).prop_map(|(name, levels, inner)| Node::Deep { name: name.to_owned(), levels, inner: vec![inner] })
 }
 
 // ---------------------------------------------------------------------------------------------
